@@ -2,7 +2,9 @@
 use std::io::{self, BufRead, Write};
 
 mod heap;
+mod num;
 mod path;
+mod prog;
 
 fn main() {
     let args: Vec<String> = std::env::args().collect();
@@ -13,6 +15,7 @@ fn main() {
     let f: fn(&str) -> String = match model {
         "path" => path::line,
         "heap" => heap::line,
+        "num" => num::line,
         _ => {
             eprintln!("usage: tvharness <model>");
             std::process::exit(2);
